@@ -237,11 +237,15 @@ def check_ownership(prog: Program, res: Result) -> None:
                sample=what)
         # the buffer object reaches the constructor
         cls_calls = [c for c, q in prog.calls_in(fi) if q in ("builtins.cls", r)]
-        names = set()
+        # the frame_buffer argument of the constructor, expanded, IS the Queue(...) construction
+        init = ci.methods.get("__init__")
+        handed = False
         for c in cls_calls:
-            names |= {norm(a) for a in c.args} | {norm(k.value) for k in c.keywords}
-        qn = {t.id for c, _ in q_calls for st in [astq_enclosing(c)] for t in getattr(st, "targets", []) if isinstance(t, ast.Name)}
-        res.ob("C13-own", bool(qn & names), fi.qualname, "the constructed queue is handed to the reader",
+            bound = astq.bind_args(init, c, skip_self=True) if init is not None else {}
+            fb = bound.get("frame_buffer")
+            fbx = astq.expand_at(fi.node, fb, astq_enclosing(c)) if fb is not None else None
+            handed = handed or (isinstance(fbx, ast.Call) and any(norm(fbx) == norm(qc) for qc, _ in q_calls))
+        res.ob("C13-own", handed, fi.qualname, "the constructed queue is handed to the reader",
                "the constructed queue is not the one handed to the reader", fi.where)
     # Thread base class
     for r in READERS:
